@@ -97,6 +97,15 @@ def monitor(ex, final):
                 raise V(ex, 'dead-session-left-in-table', stt + '|' + end_class(ex, s),
                         'session %d (%s) is still in the server table %.1fs after the history' % (
                             s.ord, stt, ex.now - ex.drained_at))
+        for s in ex.sessions:
+            if s.vanished and state_of(ex, s) == 'live' and \
+                    ex.now - s.t_vanished > 2 * ex.I + 4 * ex.T:
+                raise V(ex, 'vanished-client-left-in-table', how_opened(s) + '|' + (
+                    'mid-upgrade' if any(not a.get('promoted') and not a['conn'].done
+                                         for a in s.upg_attempts) else 'plain'),
+                        'session %d: client went away at %.3f, %.1fs later the session is still '
+                        'live and in the table' % (s.ord, s.t_vanished - 2 ** 20,
+                                                   ex.now - s.t_vanished))
         extra = table - set(ex.sid_of(s) for s in ex.sessions)
         if extra:
             raise V(ex, 'unknown-session-in-table', str(len(extra)),
